@@ -44,7 +44,7 @@ Swap == /\ spc = "swap" /\ (Locked => lock = 0)
         /\ UNCHANGED <<staged, nsets, rpc, rkey, rlen, rlist, rans, lock>>
 
 (* PickServer, step 1: (RLock) read the length *)
-ReadLen(r) == /\ rpc[r] = "idle" /\ (Locked => lock >= 0)
+ReadLen(r) == /\ rpc[r] = "idle" /\ (Locked => spc # "swap")      \* sync.RWMutex: a pending Lock() blocks new readers
               /\ \E k \in Keys : rkey' = [rkey EXCEPT ![r] = k]
               /\ rlen' = [rlen EXCEPT ![r] = Len(addrs)]
               /\ rlist' = [rlist EXCEPT ![r] = addrs]            \* history: the list in force at this moment
@@ -71,7 +71,7 @@ PickOf(l, k) == IF Len(l) = 0 THEN 0 ELSE PickModel(l, k, W, S, A)
 (* C49 (phase 2): a finished lookup was answered from ONE list that was in force during it *)
 C49_OldOrNew == \A r \in Readers : rpc[r] = "done" => rans[r] = PickOf(rlist[r], rkey[r])
 C49_NoCrash == \A r \in Readers : rans[r] # -2
-C49_LockSane == lock >= -1 /\ (spc = "swap" /\ Locked => TRUE)
+C49_LockSane == lock >= 0 /\ lock <= Cardinality(Readers)
 C49_SetTakesEffect == [](spc = "swap" => <>(spc = "idle"))
 
 (* Leg B: pairs of server lists for the concurrent scenarios: sizes and overlap *)
